@@ -8,6 +8,7 @@ export CARGO_NET_OFFLINE=true
 ID="$1"
 if [ -z "$ID" ]; then echo "usage: $0 <ID> [--tier quick|thorough] [--replay file]" >&2; exit 2; fi
 shift
+mkdir -p "$ROOT/harness/target" "$ROOT/target" || exit 2
 cd "$ROOT/harness" || exit 2
 # the Builder call sites are generated from the working tree; cargo rebuilds what changed
 if ! cargo build --release --quiet 2> "$ROOT/harness/target/build.log"; then
